@@ -76,6 +76,16 @@ Theorem C36_view_eq_iff_same_set : forall classes l1 l2, listing_sorted l1 -> li
   (view classes l1 = view classes l2 <-> forall x, In x (view classes l1) <-> In x (view classes l2)).
 Proof. exact view_eq_iff_same_set. Qed.
 
+(* which entries count: not a directory, no '_' prefix, Info() succeeded, and compilable = extension among
+   .go .xgo .gop .gox or registered as a class extension of the module *)
+Theorem C36_relevant_spec : forall classes e, relevant classes e = true <->
+  e_dir e = false /\ us_prefix (e_name e) = false /\ can_cl classes (e_name e) = true /\ e_info_ok e = true.
+Proof. exact relevant_spec. Qed.
+Theorem C36_can_cl_spec : forall classes n, can_cl classes n = true <->
+  (path_ext n = ext_go \/ path_ext n = ext_xgo \/ path_ext n = ext_gop \/ path_ext n = ext_gox)
+  \/ In (path_ext n) classes.
+Proof. exact can_cl_spec. Qed.
+
 (* K-gen: the model's text is the rendering of the format strings that are in tool/imp.go now
    (Gen/C36.v is regenerated on every run), with the arguments the source passes, and canCl's
    always-compilable extensions are the case labels of the source *)
@@ -137,6 +147,8 @@ Print Assumptions C36_hash_equal_iff_history.
 Print Assumptions C36_run_plain.
 Print Assumptions C36_run_sorted.
 Print Assumptions C36_view_eq_iff_same_set.
+Print Assumptions C36_relevant_spec.
+Print Assumptions C36_can_cl_spec.
 Print Assumptions C36_source_line_format.
 Print Assumptions C36_source_self_format.
 Print Assumptions C36_source_tables.
